@@ -95,11 +95,19 @@ type gatedConn struct {
 	nwrites  int
 	raw      []byte
 	unarmedW int // Writes that entered without an armed deadline (reported when a write timeout is configured)
+	// perWrite: every Write must be preceded by its own SetWriteDeadline (a deadline left over from an earlier
+	// Write does not count): armSeq counts the arming calls, usedSeq is the count the latest Write saw
+	perWrite bool
+	armSeq   int
+	usedSeq  int
 }
 
 func (g *gatedConn) SetWriteDeadline(t time.Time) error {
 	g.mu.Lock()
 	g.armed = !t.IsZero()
+	if g.armed {
+		g.armSeq++
+	}
 	g.mu.Unlock()
 	return g.Conn.SetWriteDeadline(t)
 }
@@ -129,6 +137,10 @@ func (g *gatedConn) Write(p []byte) (int, error) {
 	}
 	w := &gwrite{idx: g.nwrites, p: p, armed: g.armed, gid: curGID(), end: make(chan error)}
 	g.nwrites++
+	if g.perWrite && g.armSeq == g.usedSeq {
+		w.armed = false
+	}
+	g.usedSeq = g.armSeq
 	if !w.armed {
 		g.unarmedW++
 	}
